@@ -397,6 +397,18 @@ def recursion_designs():
             res = R("TwinXML") if shape == "single" else {"type": {"collection": "TwinXML"}}
         out.append(("must-refuse/twin-identifiers/%s" % shape, {"api": "twin", "types": types,
                     "services": [{"name": "twinsvc", "methods": [{"name": "run", "result": res, "http": {"verb": "GET", "path": "/run"}}]}]}))
+    # an error response for an error nobody declares, with a header / a body of its own: refused (there is no error type to check them against)
+    for level in ("method", "service", "api"):
+        for extra in ("header", "plain"):
+            er = dict({"name": "missing", "code": 404}, **({"headers": [{"attr": "x"}]} if extra == "header" else {}))
+            d = {"api": "undecl", "services": [{"name": "s", "methods": [{"name": "run", "http": {"verb": "GET", "path": "/run"}}]}]}
+            if level == "method":
+                d["services"][0]["methods"][0]["http"]["errors"] = [er]
+            elif level == "service":
+                d["services"][0]["http_errors"] = [er]
+            else:
+                d["api_http_errors"] = [er]
+            out.append(("must-refuse/undeclared-error-response/%s/%s" % (level, extra), d))
     # requirements at API level with one kind of scheme, at service level with another: the method inherits the SERVICE's (and only needs its credentials)
     for kind in ("jwt", "apikey", "oauth2"):
         scheme = {"name": "top", "kind": kind}
